@@ -57,6 +57,8 @@ structure CustomW where
   tagMode : TagMode            -- does `etag()` report a tag, `None`, or a non-string object?
   etagFault : Option Exc       -- one-shot: the next `etag()` raises this
   loadFault : Option Exc       -- one-shot: the next `load()` raises this
+  /-- ghost: serial of the most recent write -/
+  hi : Nat
 deriving DecidableEq, Repr, Inhabited
 
 def customEtag (w : CustomW) : Res EtagObs × CustomW :=
@@ -128,6 +130,8 @@ structure HttpW where
   /-- variant switch: `false` = the code today (`etag()` returns the tag cached by the last `load()`),
       `true` = `etag()` asks the server (a HEAD) -/
   tagIsRemote : Bool
+  /-- ghost: serial of the most recent write -/
+  hi : Nat
 deriving DecidableEq, Repr, Inhabited
 
 /-- the non-empty `ETag` header of a 200 answer, if the server sends one -/
@@ -188,10 +192,10 @@ def unquote (s : String) : String :=
   else s
 
 /-- `_head_etag()` rendered as the tag `etag()` builds from it: `f"etag:{et}" if et else None` -/
-def s3HeadEtagTag (w : S3W) : Option Tag :=
-  if w.headFails then none
+def s3HeadTag (headFails : Bool) (obj : Option Blob) : Option Tag :=
+  if headFails then none
   else
-    match w.obj with
+    match obj with
     | none => none
     | some b =>
       match b.etag with
@@ -213,21 +217,24 @@ def pickChecksum (prefer : Option String) (cks : List (String × String)) : Opti
   | some r => some r
   | none => order.findSome? present
 
-def s3EtagTag (w : S3W) : Option Tag :=
-  match w.det with
-  | .etag => s3HeadEtagTag w
+/-- `S3PolicySource.etag()` as a function of what it depends on -/
+def s3TagOf (det : Detector) (prefer : Option String) (headFails attrsFail : Bool) (obj : Option Blob) : Option Tag :=
+  match det with
+  | .etag => s3HeadTag headFails obj
   | .versionId =>
     let vid : Option String :=
-      if w.headFails then none else (match w.obj with | some b => b.vid | none => none)
+      if headFails then none else (match obj with | some b => b.vid | none => none)
     (match vid with
-     | some v => if v = "" then s3HeadEtagTag w else some ("vid:" ++ v)
-     | none => s3HeadEtagTag w)
+     | some v => if v = "" then s3HeadTag headFails obj else some ("vid:" ++ v)
+     | none => s3HeadTag headFails obj)
   | .checksum =>
     let ck : Option (String × String) :=
-      if w.attrsFail then none else (match w.obj with | some b => pickChecksum w.prefer b.cks | none => none)
+      if attrsFail then none else (match obj with | some b => pickChecksum prefer b.cks | none => none)
     (match ck with
      | some (a, v) => some ("ck:" ++ a ++ ":" ++ v)
-     | none => s3HeadEtagTag w)
+     | none => s3HeadTag headFails obj)
+
+def s3EtagTag (w : S3W) : Option Tag := s3TagOf w.det w.prefer w.headFails w.attrsFail w.obj
 
 def s3Etag (w : S3W) : Res EtagObs × S3W :=
   match s3EtagTag w with
@@ -257,7 +264,7 @@ inductive SrcOp where
 deriving DecidableEq, Repr, Inhabited
 
 def CustomW.apply (w : CustomW) : SrcOp → CustomW
-  | .write b _ => { w with cur := some b }
+  | .write b _ => { w with cur := some b, hi := b.serial }
   | .delete => { w with cur := none }
   | .faultEtag c => { w with etagFault := some c }
   | .faultLoad c => { w with loadFault := some c }
@@ -272,7 +279,7 @@ def FileW.apply (w : FileW) : SrcOp → FileW
   | _ => w
 
 def HttpW.apply (w : HttpW) : SrcOp → HttpW
-  | .write b _ => { w with server := some b }
+  | .write b _ => { w with server := some b, hi := b.serial }
   | .delete => { w with server := none }
   | .faultLoad c => { w with failNext := some c }
   | _ => w
